@@ -156,6 +156,7 @@ func (s *super) setStoreDecide(f func(ev sysboot.StoreEvent) sysboot.StoreDecisi
 
 type childOpts struct {
 	PackCount, PackTimer, SrcChannels int
+	PackMaxKB                         int // packer MaxMsgSize in KB (0: default)
 	DebugLog                          bool
 }
 
@@ -183,6 +184,9 @@ func (s *super) startChild(o childOpts) error {
 		"-parent", s.evLn.Addr().String(), "-pack-count", fmt.Sprint(o.PackCount), "-pack-timer", fmt.Sprint(o.PackTimer), "-src-channels", fmt.Sprint(o.SrcChannels)}
 	if o.DebugLog {
 		args = append(args, "-debug-log")
+	}
+	if o.PackMaxKB > 0 {
+		args = append(args, "-pack-maxkb", fmt.Sprint(o.PackMaxKB))
 	}
 	cmd := exec.Command(os.Args[0], args...)
 	cmd.Env = append(os.Environ(), "GORACE=halt_on_error=0 exitcode=0 log_path="+filepath.Join(os.Getenv("VERIF_SCRATCH"), "race"))
